@@ -175,11 +175,15 @@ Definition desc_of_pdesc (p : pdesc) : desc :=
     end
   else raw.
 
-Inductive rop := ORegister (ci : nat) (ly : list layer) | OUnregister (ci : nat) (ly : list layer).
+Inductive rop :=
+| ORegister (ci : nat) (ly : list layer)
+| OUnregister (ci : nat) (ly : list layer)
+| OMustRegister (cis : list nat) (ly : list layer).   (* MustRegister(c1..cn) through one wrapper chain *)
 Definition d_rop (s : sx) : option rop :=
   match s with
   | SL [SZ 0; ci; ly] => match dNat ci, dL d_layer ly with Some ci, Some ly => Some (ORegister ci ly) | _, _ => None end
   | SL [SZ 1; ci; ly] => match dNat ci, dL d_layer ly with Some ci, Some ly => Some (OUnregister ci ly) | _, _ => None end
+  | SL [SZ 2; cis; ly] => match dL dNat cis, dL d_layer ly with Some cis, Some ly => Some (OMustRegister cis ly) | _, _ => None end
   | _ => None
   end.
 Definition d_coll (s : sx) : option (bool * list pdesc) := dP dB (dL d_pdesc) s.
@@ -194,6 +198,20 @@ Definition rres_kind (r : rres) : Z * Z :=
 Definition mk_coll (colls : list (bool * list pdesc)) (ci : nat) (ly : list layer) : collector :=
   wrap_collector (CBase (Z.of_nat ci) (map desc_of_pdesc (snd (nth ci colls (false, [])))) []) ly.
 
+(* wrappingRegisterer.MustRegister (wrap.go:132-141): Register one after the other, panic with the
+   first error; what was registered before stays registered, nothing after it is attempted *)
+Fixpoint must_register (colls : list (bool * list pdesc)) (r : registry) (cis : list nat) (ly : list layer)
+  : registry * (Z * Z) :=
+  match cis with
+  | [] => (r, (0, -1))
+  | ci :: rest =>
+      match register_collector poly_hash r (mk_coll colls ci ly) with
+      | None => (r, (6, -1))
+      | Some (r', ROk) => must_register colls r' rest ly
+      | Some (r', res) => (r', rres_kind res)
+      end
+  end.
+
 Fixpoint run_reg (colls : list (bool * list pdesc)) (r : registry) (ops : list rop) : list (Z * Z) :=
   match ops with
   | [] => []
@@ -207,25 +225,33 @@ Fixpoint run_reg (colls : list (bool * list pdesc)) (r : registry) (ops : list r
       | None => (6, -1) :: run_reg colls r rest
       | Some (r', b) => ((if b then 1 else 0), -1) :: run_reg colls r' rest
       end
+  | OMustRegister cis ly :: rest =>
+      let '(r', res) := must_register colls r cis ly in res :: run_reg colls r' rest
   end.
 
-Definition op_ci (o : rop) : nat := match o with ORegister ci _ => ci | OUnregister ci _ => ci end.
-Definition is_reg (o : rop) : bool := match o with ORegister _ _ => true | _ => false end.
+Definition op_unordered (colls : list (bool * list pdesc)) (o : rop) : bool :=
+  match o with
+  | ORegister ci _ | OUnregister ci _ => fst (nth ci colls (false, []))
+  | OMustRegister cis _ => existsb (fun ci => fst (nth ci colls (false, []))) cis
+  end.
+Definition is_reg (o : rop) : bool := match o with OUnregister _ _ => false | _ => true end.
 Definition kind_same (unordered : bool) (a b : Z) : bool :=
   if unordered then Bool.eqb (a =? 0) (b =? 0) && Bool.eqb (a =? 6) (b =? 6) else a =? b.
 
 (* result = (wrapped outcome, existing collector index, natively declared outcome or 9 when no
    native equivalent exists because an added label is already a constant label) *)
 Definition reg_spec_ok (colls : list (bool * list pdesc)) (o : rop) (res : Z * Z * Z) : bool :=
-  let '(w, _, n) := res in
-  let un := fst (nth (op_ci o) colls (false, [])) in
+  let '(w, ex, n) := res in
+  let un := op_unordered colls o in
   if is_reg o then
-    if n =? 9 then negb (w =? 0) && negb (w =? 6) else kind_same un w n
+    (* an AlreadyRegisteredError names one of the user's own collectors, as it was provided *)
+    (if w =? 4 then 0 <=? ex else true) &&
+    (if n =? 9 then negb (w =? 0) && negb (w =? 6) else kind_same un w n)
   else
     if n =? 9 then true else w =? n.
 Definition reg_model_ok (colls : list (bool * list pdesc)) (o : rop) (m : Z * Z) (res : Z * Z * Z) : bool :=
   let '(w, ex, _) := res in
-  let un := fst (nth (op_ci o) colls (false, [])) in
+  let un := op_unordered colls o in
   if is_reg o then kind_same un (fst m) w && (if (w =? 4) && (fst m =? 4) then snd m =? ex else true)
   else fst m =? w.
 
